@@ -66,7 +66,7 @@ prop(
     "C20",
     level="proof",
     design_ref="DESIGN.md section 3, C20",
-    groups=[(["./pipeline"], r"^\(\*Pipeline\)\.(checkInputBytes|In)$"), (["./pipeline/antispam"], r"^\(\*Antispammer\)\.(IsSpam|Maintenance)$")],
+    groups=[(["./pipeline"], r"^\(\*Pipeline\)\.(checkInputBytes|In)$"), (["./pipeline/antispam"], r"^\(\*Antispammer\)\.(IsSpam|Maintenance)$"), (["./cfg/matchrule"], r"^\(\*Rule\)\.(Match|match)$")],
     claim=(
         "Sequential admission control, for all records and settings: checkInputBytes has an exact postcondition (refuses iff empty, lone newline, or oversize with cutting disabled; within the limit the record is returned unchanged; "
         "a cut record is its first max_event_size bytes plus its newline, written inside the caller's record - frame checked); Pipeline.In returns 0 only on one of the listed reasons "
@@ -253,7 +253,7 @@ prop(
     "C05",
     level="other",
     design_ref="DESIGN.md section 3, C05",
-    groups=[(_PIPE, r"^(\(\*Pipeline\)\.(In|finalize)|\(\*lowMemoryEventPool\)\.(get|back|inUse)|\(\*processor\)\.(doActions|processSequence))$")],
+    groups=[(_PIPE, r"^(\(\*Pipeline\)\.(In|finalize)|\(\*lowMemoryEventPool\)\.(get|back|inUse)|\(\*Event\)\.reset|\(\*processor\)\.(doActions|processSequence))$")],
     claim=(
         "Linear ownership accounting proved per function: Pipeline.In takes at most one event from the pool and on every exit path has either streamed it or returned it (held == 0 at every return); "
         "finalize returns a regular event to the pool exactly once iff asked and never for timeout/child events; doActions finalizes at most once; processSequence hands a passed event to the output exactly once; "
@@ -313,7 +313,7 @@ prop(
     "C19",
     level="other",
     design_ref="DESIGN.md section 3, C19",
-    groups=[(["./pipeline"], r"^\(\*Batch\)\.ForEach$"),
+    groups=[(["./pipeline"], r"^(\(\*Batch\)\.ForEach|\(\*Event\)\.reset)$"),
             (["./plugin/output/elasticsearch"], r"^\(\*Plugin\)\.(sendSplit|appendIndexName|appendEvent|out|out\$1|Start|Start\$1)$"),
             (["./plugin/output/http", "./pipeline"], r"^\(\*Plugin\)\.(sendSplit|out|out\$1)$")],
     known_canaries=[("./plugin/output/elasticsearch", "replay/C19/zz_replay_c19_test.go", "TestVerifReplayC19IndexName")],
@@ -338,7 +338,7 @@ prop(
     "C17",
     level="other",
     design_ref="DESIGN.md section 3, C17",
-    groups=[(["./plugin/action/mask"], r"^\(\*Mask\)\.(maskValue|maskSection)$"), (["./cfg"], r"^VerifyGroupNumbers$")],
+    groups=[(["./plugin/action/mask"], r"^\(\*Mask\)\.(maskValue|maskSection)$"), (["./cfg"], r"^VerifyGroupNumbers$"), (["./cfg/matchrule"], r"^\(\*Rule\)\.(Match|match)$")],
     canaries=[("./plugin/action/mask", "replay/C17/zz_replay_c17_test.go", "TestVerifReplayC17Tail")],
     known_canaries=[("./plugin/action/mask", "replay/C17/zz_replay_c17_test.go", "TestVerifReplayC17Order")],
     claim=(
@@ -364,7 +364,7 @@ prop(
             (["./plugin/action/convert_utf8_bytes"], r"^\(\*Plugin\)\.convert$"),
             (["./plugin/action/hash/normalize"], r"^(hasPattern|\(\*tokenizer\)\.(nextToken|processOpenBracket|processCloseBracket|processQuotes)|\(\*tokenNormalizer\)\.normalizeByTokenizer)$"),
             (["./cfg/substitution"], r"^\(\*(CutFilter|TrimToFilter|RegexFilter)\)\.Apply$"),
-            (["./cfg/matchrule"], r"^\(\*Rule\)\.match$"),
+            (["./cfg/matchrule"], r"^\(\*Rule\)\.(Match|match)$"),
             (["./cfg"], r"^VerifyGroupNumbers$"),
             (["./pipeline"], r"^\(\*processor\)\.(processEvent|doActions)$"),
             (["./metric"], r"truncateLabels$"),
